@@ -3267,4 +3267,344 @@ theorem roundtrip (wide : Bool) (acl : Acl) (flags : Nat) (hwf : WF acl)
     rw [addLoop_listed (listed acl wt) _ m hlw hm (by simp) (by simp) hpw]
     simp [rtAcl, hwt, ha]
 
+/-! ### `archive_acl_add_entry` keeps an ACL well-formed -/
+
+theorem overwrite_spec (ty pm tag : Nat) (id : Int) (nm : List Ch) (l : List Entry) :
+    (overwrite ty pm tag id nm l = none ∧
+      ∀ x ∈ l, ¬ (ty &&& typeNfs4 = 0 ∧ x.type = ty ∧ x.tag = tag ∧ x.id = id ∧
+        (id ≠ -1 ∨ (tag ≠ tagUser ∧ tag ≠ tagGroup)))) ∨
+    (∃ pre x post, l = pre ++ x :: post ∧
+      (ty &&& typeNfs4 = 0 ∧ x.type = ty ∧ x.tag = tag ∧ x.id = id) ∧
+      overwrite ty pm tag id nm l = some (pre ++ { x with permset := pm, name := nm } :: post)) := by
+  induction l with
+  | nil => left; exact ⟨rfl, by simp⟩
+  | cons a t ih =>
+    by_cases hc : ty &&& typeNfs4 = 0 ∧ a.type = ty ∧ a.tag = tag ∧ a.id = id ∧
+        (id ≠ -1 ∨ (tag ≠ tagUser ∧ tag ≠ tagGroup))
+    · right
+      exact ⟨[], a, t, rfl, ⟨hc.1, hc.2.1, hc.2.2.1, hc.2.2.2.1⟩, by simp [overwrite, hc]⟩
+    · rcases ih with ⟨hn, hall⟩ | ⟨pre, x, post, hl, hx, hs⟩
+      · left
+        refine ⟨by simp [overwrite, hc, hn], ?_⟩
+        intro y hy
+        rcases List.mem_cons.mp hy with h | h
+        · rw [h]; exact hc
+        · exact hall y h
+      · right
+        exact ⟨a :: pre, x, post, by simp [hl], hx, by simp [overwrite, hc, hs]⟩
+
+theorem and_seven_lt (p : Nat) (h : p &&& 7 = p) : p < 8 := by
+  have : p &&& 7 ≤ 7 := Nat.and_le_right
+  omega
+
+theorem orTypes_append (l : List Entry) (e : Entry) (t : Nat) :
+    orTypes (l ++ [e]) t = orTypes l t ||| e.type := by
+  simp [orTypes, List.foldl_append]
+
+
+theorem aclSpecial_some (acl a' : Acl) (ty pm tg : Nat) (h : aclSpecial acl ty pm tg = some a') :
+    a'.entries = acl.entries ∧ a'.types = acl.types ∧
+    ty = typeAccess ∧ pm &&& 7 = pm ∧ (tg = tagUserObj ∨ tg = tagGroupObj ∨ tg = tagOther) := by
+  unfold aclSpecial within at h
+  split at h
+  · rename_i hc
+    have hc2 : pm &&& 7 = pm := by simpa using hc.2
+    split at h
+    · cases h; exact ⟨rfl, rfl, hc.1, hc2, Or.inl (by assumption)⟩
+    · split at h
+      · cases h; exact ⟨rfl, rfl, hc.1, hc2, Or.inr (Or.inl (by assumption))⟩
+      · split at h
+        · cases h; exact ⟨rfl, rfl, hc.1, hc2, Or.inr (Or.inr (by assumption))⟩
+        · cases h
+  · cases h
+
+theorem aclSpecial_none (acl : Acl) (ty pm tg : Nat) (h : aclSpecial acl ty pm tg = none)
+    (hpm : pm &&& 7 = pm) : ¬ (ty = typeAccess ∧ (tg = tagUserObj ∨ tg = tagGroupObj ∨ tg = tagOther)) := by
+  intro ⟨hty, htg⟩
+  unfold aclSpecial within at h
+  simp only [hty, hpm, decide_true, and_self, if_true] at h
+  rcases htg with h1 | h1 | h1 <;> simp [h1, tagc] at h
+
+theorem WF_of_same (acl a' : Acl) (hwf : WF acl) (he : a'.entries = acl.entries)
+    (ht : a'.types = acl.types) : WF a' :=
+  ⟨by rw [he]; exact hwf.entries, by rw [he]; exact hwf.family, by rw [he, ht]; exact hwf.types,
+   by rw [he]; exact hwf.nodup⟩
+
+
+/-- What `acl_new_entry`'s checks establish about a new entry of one of the six types. -/
+theorem newEntryValid_spec (acl : Acl) (ty pm tg : Nat) (hty : IsPosix ty ∨ IsNfs4 ty)
+    (hv : newEntryValid acl ty pm tg = true) :
+    (IsUG tg ∨ tg = tagUserObj ∨ tg = tagGroupObj ∨
+      (IsPosix ty ∧ (tg = tagMask ∨ tg = tagOther)) ∨ (IsNfs4 ty ∧ tg = tagEveryone)) ∧
+    (if IsPosix ty then pm < 8 else pm &&& (permsNfs4 ||| inheritanceNfs4) = pm) ∧
+    acl.types &&& (if IsPosix ty then typePosix1e else typeNfs4) = acl.types := by
+  have hexcl : IsPosix ty → IsNfs4 ty → False := by
+    intro h1 h2
+    rcases h1 with h | h <;> rcases h2 with h' | h' | h' | h' <;> rw [h] at h' <;> revert h' <;> decide
+  unfold newEntryValid within at hv
+  simp only [Bool.and_eq_true, decide_eq_true_eq] at hv
+  obtain ⟨hfam, htag⟩ := hv
+  rcases hty with hp | hn
+  · have hb := posix_bits hp
+    simp only [hb.2, ne_eq, not_true_eq_false, if_false, hb.1, not_false_eq_true, if_true,
+      decide_eq_true_eq] at hfam
+    have htag' : IsUG tg ∨ tg = tagUserObj ∨ tg = tagGroupObj ∨
+        (IsPosix ty ∧ (tg = tagMask ∨ tg = tagOther)) ∨ (IsNfs4 ty ∧ tg = tagEveryone) := by
+      by_cases h1 : tg = tagUser ∨ tg = tagUserObj ∨ tg = tagGroup ∨ tg = tagGroupObj
+      · rcases h1 with h | h | h | h
+        · exact Or.inl (Or.inl h)
+        · exact Or.inr (Or.inl h)
+        · exact Or.inl (Or.inr h)
+        · exact Or.inr (Or.inr (Or.inl h))
+      · simp only [h1, if_false] at htag
+        by_cases h2 : tg = tagMask ∨ tg = tagOther
+        · exact Or.inr (Or.inr (Or.inr (Or.inl ⟨hp, h2⟩)))
+        · simp only [h2, if_false] at htag
+          by_cases h3 : tg = tagEveryone
+          · simp only [h3, if_true, decide_eq_true_eq] at htag
+            exfalso
+            rcases hp with h | h <;> rw [h] at htag <;> revert htag <;> decide
+          · simp [h3] at htag
+    refine ⟨htag', ?_, ?_⟩
+    · rw [if_pos hp]
+      have h7 : permsPosix1e = 7 := by decide
+      have h2 := hfam.2
+      rw [h7] at h2
+      exact and_seven_lt pm h2
+    · rw [if_pos hp]; exact hfam.1
+  · have hb := nfs4_bits hn
+    have hnp : ¬ IsPosix ty := fun hp => hexcl hp hn
+    simp only [hb.2, ne_eq, not_false_eq_true, if_true, decide_eq_true_eq] at hfam
+    have htag' : IsUG tg ∨ tg = tagUserObj ∨ tg = tagGroupObj ∨
+        (IsPosix ty ∧ (tg = tagMask ∨ tg = tagOther)) ∨ (IsNfs4 ty ∧ tg = tagEveryone) := by
+      by_cases h1 : tg = tagUser ∨ tg = tagUserObj ∨ tg = tagGroup ∨ tg = tagGroupObj
+      · rcases h1 with h | h | h | h
+        · exact Or.inl (Or.inl h)
+        · exact Or.inr (Or.inl h)
+        · exact Or.inl (Or.inr h)
+        · exact Or.inr (Or.inr (Or.inl h))
+      · simp only [h1, if_false] at htag
+        by_cases h2 : tg = tagMask ∨ tg = tagOther
+        · simp only [h2, if_true, decide_eq_true_eq] at htag
+          exfalso
+          rcases hn with h | h | h | h <;> rw [h] at htag <;> revert htag <;> decide
+        · simp only [h2, if_false] at htag
+          by_cases h3 : tg = tagEveryone
+          · exact Or.inr (Or.inr (Or.inr (Or.inr ⟨hn, h3⟩)))
+          · simp [h3] at htag
+    refine ⟨htag', ?_, ?_⟩
+    · rw [if_neg hnp]; exact hfam.2
+    · rw [if_neg hnp]; exact hfam.1
+
+
+theorem family_of_types (acl : Acl) (hwf : WF acl) (m : Nat) (hm : acl.types &&& m = acl.types)
+    (e : Entry) (he : e ∈ acl.entries) : e.type &&& m = e.type := by
+  have ht := hwf.types
+  -- every entry type is part of the OR
+  have key : ∀ (l : List Entry) (t : Nat), e ∈ l → orTypes l t &&& e.type = e.type := by
+    intro l
+    induction l with
+    | nil => intro t h; simp at h
+    | cons a r ih =>
+      intro t h
+      simp only [orTypes, List.foldl_cons] at ih ⊢
+      rcases List.mem_cons.mp h with h1 | h1
+      · have := orTypes_and r (t ||| a.type) e.type
+        simp only [orTypes] at this
+        rw [this, h1, Nat.and_or_distrib_right, Nat.and_self]
+        apply Nat.eq_of_testBit_eq; intro i
+        simp only [Nat.testBit_or, Nat.testBit_and]
+        cases a.type.testBit i <;> simp
+      · exact ih _ h1
+  have h1 := key acl.entries 0 he
+  rw [← ht] at h1
+  -- e.type ⊆ types ⊆ m
+  calc e.type &&& m = (acl.types &&& e.type) &&& m := by rw [h1]
+    _ = (acl.types &&& m) &&& e.type := by rw [Nat.and_assoc, Nat.and_comm e.type m, ← Nat.and_assoc]
+    _ = e.type := by rw [hm, h1]
+
+/-- `archive_acl_add_entry` with one of the six ACL types and a C `int` id keeps an ACL
+well-formed, whatever its other arguments are. -/
+theorem addEntry_WF (acl : Acl) (hwf : WF acl) (ty pm tg : Nat) (id : Int) (nm : List Ch)
+    (hty : IsPosix ty ∨ IsNfs4 ty) (hid : -2147483648 ≤ id ∧ id ≤ 2147483647) :
+    WF (addEntry acl ty pm tg id nm).1 := by
+  have hexcl : ∀ t, IsPosix t → IsNfs4 t → False := by
+    intro t h1 h2
+    rcases h1 with h | h <;> rcases h2 with h' | h' | h' | h' <;> rw [h] at h' <;> revert h' <;> decide
+  unfold addEntry
+  cases hsp : aclSpecial acl ty pm tg with
+  | some a' =>
+    obtain ⟨he, ht, _⟩ := aclSpecial_some acl a' ty pm tg hsp
+    exact WF_of_same acl a' hwf he ht
+  | none =>
+    simp only []
+    by_cases hv : newEntryValid acl ty pm tg = true
+    · simp only [hv, if_true]
+      obtain ⟨htag, hperm, hfam⟩ := newEntryValid_spec acl ty pm tg hty hv
+      rcases overwrite_spec ty pm tg id nm acl.entries with ⟨hn, hall⟩ | ⟨pre, x, post, hl, hx, hs⟩
+      · -- a new entry at the end of the list
+        simp only [hn]
+        have hnew : EntryWF ⟨ty, tg, pm, id, nm⟩ := by
+          refine ⟨hty, htag, hperm, hid, ?_⟩
+          intro ⟨hacc, htg3⟩
+          have hp : IsPosix ty := Or.inl hacc
+          rw [if_pos hp] at hperm
+          exact aclSpecial_none acl ty pm tg hsp (small_and_seven ⟨pm, hperm⟩) ⟨hacc, htg3⟩
+        refine ⟨?_, ?_, ?_, ?_⟩
+        · intro e he
+          simp only [List.mem_append, List.mem_cons, List.not_mem_nil, or_false] at he
+          rcases he with he | he
+          · exact hwf.entries e he
+          · rw [he]; exact hnew
+        · -- one family: the stored types lie inside the new entry's family mask
+          rcases hty with hp | hn4
+          · left
+            rw [if_pos hp] at hfam
+            intro e he
+            simp only [List.mem_append, List.mem_cons, List.not_mem_nil, or_false] at he
+            rcases he with he | he
+            · have := family_of_types acl hwf _ hfam e he
+              rcases (hwf.entries e he).type_ok with h | h
+              · exact h
+              · exfalso
+                rcases h with h | h | h | h <;> rw [h] at this <;> revert this <;> decide
+            · rw [he]; exact hp
+          · right
+            have hnp : ¬ IsPosix ty := fun hp => hexcl ty hp hn4
+            rw [if_neg hnp] at hfam
+            intro e he
+            simp only [List.mem_append, List.mem_cons, List.not_mem_nil, or_false] at he
+            rcases he with he | he
+            · have := family_of_types acl hwf _ hfam e he
+              rcases (hwf.entries e he).type_ok with h | h
+              · exfalso
+                rcases h with h | h <;> rw [h] at this <;> revert this <;> decide
+              · exact h
+            · rw [he]; exact hn4
+        · show acl.types ||| ty = orTypes (acl.entries ++ [⟨ty, tg, pm, id, nm⟩]) 0
+          rw [orTypes_append, hwf.types]
+        · rw [List.pairwise_append]
+          refine ⟨hwf.nodup, by simp, ?_⟩
+          intro a ha b hb
+          simp only [List.mem_cons, List.not_mem_nil, or_false] at hb
+          rw [hb]
+          exact hall a ha
+      · -- an existing entry gets the new permset and name
+        simp only [hs]
+        have hp : IsPosix ty := by
+          rcases hty with h | h
+          · exact h
+          · exact absurd hx.1 (nfs4_bits h).2
+        rw [if_pos hp] at hperm
+        have hxmem : x ∈ acl.entries := by rw [hl]; simp
+        have hxwf := hwf.entries x hxmem
+        have hx' : EntryWF { x with permset := pm, name := nm } := by
+          refine ⟨hxwf.type_ok, hxwf.tag_ok, ?_, hxwf.id_range, hxwf.not_mode⟩
+          show (if IsPosix x.type then pm < 8 else _)
+          rw [hx.2.1, if_pos hp]; exact hperm
+        refine ⟨?_, ?_, ?_, ?_⟩
+        · intro e he
+          simp only [List.mem_append, List.mem_cons] at he
+          rcases he with he | he | he
+          · exact hwf.entries e (by rw [hl]; simp [he])
+          · rw [he]; exact hx'
+          · exact hwf.entries e (by rw [hl]; simp [he])
+        · have hmap : ∀ e ∈ pre ++ { x with permset := pm, name := nm } :: post,
+              ∃ e' ∈ acl.entries, e'.type = e.type := by
+            intro e he
+            simp only [List.mem_append, List.mem_cons] at he
+            rcases he with he | he | he
+            · exact ⟨e, by rw [hl]; simp [he], rfl⟩
+            · exact ⟨x, hxmem, by rw [he]⟩
+            · exact ⟨e, by rw [hl]; simp [he], rfl⟩
+          rcases hwf.family with h | h
+          · left; intro e he; obtain ⟨e', he', ht'⟩ := hmap e he; rw [← ht']; exact h e' he'
+          · right; intro e he; obtain ⟨e', he', ht'⟩ := hmap e he; rw [← ht']; exact h e' he'
+        · show acl.types = orTypes (pre ++ { x with permset := pm, name := nm } :: post) 0
+          rw [hwf.types, hl]
+          simp [orTypes, List.foldl_append]
+        · have hnd := hwf.nodup
+          rw [hl] at hnd
+          rw [List.pairwise_append] at hnd ⊢
+          obtain ⟨h1, h2, h3⟩ := hnd
+          rw [List.pairwise_cons] at h2 ⊢
+          refine ⟨h1, ⟨fun b hb => h2.1 b hb, h2.2⟩, ?_⟩
+          intro a ha b hb
+          rcases List.mem_cons.mp hb with hb | hb
+          · rw [hb]; exact h3 a ha x (by simp)
+          · exact h3 a ha b (by simp [hb])
+    · simp only [hv, if_false]
+      exact hwf
+
+theorem WF_empty : WF {} := ⟨by simp, Or.inl (by simp), rfl, by simp⟩
+
+/-! ### A name with `#`: the witness against the full-strength round trip -/
+
+theorem digits_small (n : Nat) (h : n ≤ 9) : digits n = [48 + n] := by
+  rw [digits]; simp [Nat.not_lt.mpr h]
+
+theorem idLenLoop_small (n : Nat) (h : n ≤ 9) : idLenLoop n = 1 := by
+  rw [idLenLoop]; simp [Nat.not_lt.mpr h]
+
+/-- The witness: one NFSv4 entry `user:a#b` with id 5 and no permission bits. -/
+def hashAcl : Acl :=
+  { mode := 0, entries := [⟨typeAllow, tagUser, 0, 5, str "a#b"⟩], types := typeAllow }
+
+theorem hashAcl_text : toText false hashAcl 17 = .text (str "user:a#b:::allow:5") := by
+  have h5 : digits 5 = [53] := digits_small 5 (by decide)
+  have hl : idLenLoop 5 = 1 := idLenLoop_small 5 (by decide)
+  have hw : textWantType hashAcl 17 = typeNfs4 := by decide
+  have hlisted : listed hashAcl typeNfs4 = hashAcl.entries := by decide
+  have hid : appendId 5 = [53] := by simp [appendId, h5]
+  have hentry : entryText false 17 ⟨typeAllow, tagUser, 0, 5, str "a#b"⟩ = str "user:a#b:::allow:5" := by
+    rw [entryText_extra _ _ _ (by decide), appendEntry_nfs4 _ _ _ _ _ _ _ _ (Or.inl rfl),
+      qualPart_ug _ _ _ _ _ (Or.inl rfl)]
+    have hne : (str "a#b" ≠ []) = True := by decide
+    have h51 : ((5 : Int) ≠ -1) = True := by decide
+    simp only [hne, if_true, h51, hid]
+    decide
+  have hbody : textBody false hashAcl typeNfs4 17 = str "user:a#b:::allow:5" := by
+    unfold textBody
+    rw [hlisted]
+    have : (typeNfs4 &&& typeAccess ≠ 0) = False := by decide
+    simp only [this, if_false, List.nil_append, hashAcl, List.map_cons, List.map_nil, hentry]
+    decide
+  have hlen : textLen hashAcl typeNfs4 17 = 40 := by
+    unfold textLen
+    rw [hlisted]
+    simp only [hashAcl, List.map_cons, List.map_nil, entryTextLen, idLen]
+    have : (5 : Int).toNat = 5 := rfl
+    simp only [this, hl]
+    decide
+  unfold toText
+  have hf : textFlags typeNfs4 17 = 17 := by decide
+  simp only [hw, hf, hlen, hbody]
+  decide
+
+
+theorem hashAcl_parse :
+    fromText false {} (str "user:a#b:::allow:5") typeNfs4 =
+      .ok { acl := {}, status := .warn, skipped := 1, added := 0 } := by
+  have htext : str "user:a#b:::allow:5" = 117 :: str "ser:a#b:::allow:5" := by decide
+  have hn1 : nextFieldN (str "user:a#b:::allow:5") =
+      { field := ⟨str "user:a#b:::allow:5", 4⟩, sep := 58, rest := str "a#b:::allow:5" } := by rfl
+  have hn2 : nextFieldN (str "a#b:::allow:5") =
+      { field := ⟨str "a#b:::allow:5", 1⟩, sep := 0, rest := [] } := by rfl
+  have hsplit : splitEntry false (str "user:a#b:::allow:5") =
+      .ok ([⟨str "user:a#b:::allow:5", 4⟩, ⟨str "a#b:::allow:5", 1⟩], []) := by
+    rw [splitEntry_eq]
+    simp only [nextField, Bool.false_eq_true, if_false, hn1, if_true]
+    rw [splitEntry_eq]
+    simp only [nextField, Bool.false_eq_true, if_false, hn2]
+    have : ¬ ((0 : Nat) = 58) := by decide
+    simp only [this, if_false]
+  have hpf : parseFields false [⟨str "user:a#b:::allow:5", 4⟩, ⟨str "a#b:::allow:5", 1⟩] typeNfs4 =
+      .ok .skip := by rfl
+  unfold fromText
+  have hw : (if typeNfs4 = typePosix1e then typeAccess else typeNfs4) = typeNfs4 := by decide
+  simp only [hw, or_true, if_true, Bool.false_eq_true, if_false]
+  conv => lhs; rw [htext, parseLoop_cons]
+  have h0 : ¬ ((117 : Nat) = 0) := by decide
+  simp only [h0, if_false, ← htext, hsplit, loopStep, hpf, parseLoop_nil, Bool.false_eq_true]
+
 end LA.Acl
